@@ -5,14 +5,15 @@ use crate::gen::GameParams;
 use crate::props::*;
 use crate::runner::Leg;
 
-const MIX: GameParams = GameParams { max_ops: 120, w_setup: 1, w_pos: 6, w_small: 3, w_frozen: 0, hanging: false, w_motif: 0 };
-const MIX_LONGSETUP: GameParams = GameParams { max_ops: 160, w_setup: 4, w_pos: 4, w_small: 2, w_frozen: 0, hanging: false, w_motif: 0 };
-const SETUP_ONLY: GameParams = GameParams { max_ops: 40, w_setup: 1, w_pos: 0, w_small: 0, w_frozen: 0, hanging: false, w_motif: 0 };
-const SMALL: GameParams = GameParams { max_ops: 240, w_setup: 0, w_pos: 1, w_small: 8, w_frozen: 0, hanging: false, w_motif: 0 };
-const FROZEN: GameParams = GameParams { max_ops: 240, w_setup: 0, w_pos: 0, w_small: 1, w_frozen: 6, hanging: false, w_motif: 0 };
-const MOTIF: GameParams = GameParams { max_ops: 24, w_setup: 0, w_pos: 0, w_small: 0, w_frozen: 0, hanging: false, w_motif: 1 };
-const SETUP_CYCLE: GameParams = GameParams { max_ops: 150, w_setup: 1, w_pos: 0, w_small: 0, w_frozen: 0, hanging: false, w_motif: 0 };
-const POS_ONLY: GameParams = GameParams { max_ops: 40, w_setup: 0, w_pos: 7, w_small: 3, w_frozen: 0, hanging: false, w_motif: 0 };
+const MIX: GameParams = GameParams { max_ops: 120, w_setup: 1, w_pos: 6, w_small: 3, w_frozen: 0, hanging: false, w_motif: 0, w_open: 0 };
+const MIX_LONGSETUP: GameParams = GameParams { max_ops: 160, w_setup: 4, w_pos: 4, w_small: 2, w_frozen: 0, hanging: false, w_motif: 0, w_open: 0 };
+const SETUP_ONLY: GameParams = GameParams { max_ops: 40, w_setup: 1, w_pos: 0, w_small: 0, w_frozen: 0, hanging: false, w_motif: 0, w_open: 0 };
+const SMALL: GameParams = GameParams { max_ops: 240, w_setup: 0, w_pos: 1, w_small: 8, w_frozen: 0, hanging: false, w_motif: 0, w_open: 0 };
+const FROZEN: GameParams = GameParams { max_ops: 240, w_setup: 0, w_pos: 0, w_small: 1, w_frozen: 6, hanging: false, w_motif: 0, w_open: 0 };
+const MOTIF: GameParams = GameParams { max_ops: 24, w_setup: 0, w_pos: 0, w_small: 0, w_frozen: 0, hanging: false, w_motif: 1, w_open: 0 };
+const OPEN: GameParams = GameParams { max_ops: 12, w_setup: 0, w_pos: 0, w_small: 0, w_frozen: 0, hanging: false, w_motif: 0, w_open: 1 };
+const SETUP_CYCLE: GameParams = GameParams { max_ops: 150, w_setup: 1, w_pos: 0, w_small: 0, w_frozen: 0, hanging: false, w_motif: 0, w_open: 0 };
+const POS_ONLY: GameParams = GameParams { max_ops: 40, w_setup: 0, w_pos: 7, w_small: 3, w_frozen: 0, hanging: false, w_motif: 0, w_open: 0 };
 
 const TREE: ExpandOpts = ExpandOpts { caps: [0, 10, 5], rate: 40, max_nodes: 6000 };
 const TREE_CYCLE: ExpandOpts = ExpandOpts { caps: [0, 8, 4], rate: 48, max_nodes: 4000 };
@@ -69,6 +70,7 @@ pub fn observer_for(id: &str) -> Option<fn() -> Box<dyn Obs>> {
         "C13" => || b(C13),
         "C14" => || b(C14::default()),
         "C15" => || b(C15),
+        "C17" => || b(C17),
         "C19" => || b(C19),
         _ => return None,
     })
@@ -102,6 +104,7 @@ fn legs_base(id: &str) -> Vec<Leg> {
             leg!("rebuilt_states_motif_tree", MOTIF, wr(Profile::Fight, Some(TREE)), 100, 800, 60, mk),
             leg!("interference_probe_fight", MIX, wx(Profile::Fight), 400, 3200, 300, mk),
             leg!("interference_probe_motif", MOTIF, wx(Profile::Fight), 300, 2400, 60, mk),
+            leg!("open_positions_many_actions", OPEN, w(Profile::Normal, None), 400, 3200, 12, mk),
         ],
         "C02" => vec![
             leg!("games_fight", MIX, w(Profile::Fight, Some(TREE_LIGHT)), 480, 14400, 600, mk),
@@ -109,11 +112,14 @@ fn legs_base(id: &str) -> Vec<Leg> {
             leg!("false_protection_motif_tree", MOTIF, w(Profile::Fight, Some(TREE)), 300, 2400, 60, mk),
             leg!("games_played_on_after_the_result", SMALL, wp(Profile::Normal), 600, 4800, 200, mk),
             leg!("interference_probe_fight", MIX, wx(Profile::Fight), 200, 1600, 300, mk),
+            leg!("small_cycle_through_withheld_actions", SMALL, wn(Profile::Cycle), 300, 9000, 600, mk),
         ],
         "C03" => vec![
             leg!("games_normal", MIX_LONGSETUP, w(Profile::Normal, None), 10000, 300000, 1500, mk),
             leg!("games_cycle", SMALL, w(Profile::Cycle, None), 6000, 180000, 1500, mk),
             leg!("games_played_on_after_the_result", SMALL, wp(Profile::Normal), 600, 4800, 200, mk),
+            leg!("interference_probe_normal", MIX, wx(Profile::Normal), 300, 2400, 300, mk),
+            leg!("small_cycle_through_withheld_actions", SMALL, wn(Profile::Cycle), 300, 9000, 600, mk),
         ],
         "C04" => vec![
             leg!("games_normal", MIX, w(Profile::Normal, None), 1600, 48000, 1500, mk),
@@ -145,6 +151,7 @@ fn legs_base(id: &str) -> Vec<Leg> {
             leg!("games_played_on_after_the_result", SMALL, wp(Profile::Normal), 600, 4800, 200, mk),
             leg!("setup_then_cycle", SETUP_CYCLE, w(Profile::Cycle, None), 200, 1600, 300, mk),
             leg!("interference_probe_fight", MIX, wx(Profile::Fight), 200, 1600, 300, mk),
+            leg!("small_cycle_through_withheld_actions", SMALL, wn(Profile::Cycle), 300, 9000, 600, mk),
         ],
         "C09" => vec![leg!("setup_orders", SETUP_ONLY, w(Profile::Normal, None), 32000, 960000, 40, mk)],
         "C10" => vec![
@@ -153,6 +160,7 @@ fn legs_base(id: &str) -> Vec<Leg> {
             leg!("false_protection_motif_tree", MOTIF, w(Profile::Fight, Some(TREE)), 150, 1200, 60, mk),
             leg!("games_played_on_after_the_result", SMALL, wp(Profile::Normal), 600, 4800, 200, mk),
             leg!("interference_probe_fight", MIX, wx(Profile::Fight), 200, 1600, 300, mk),
+            leg!("small_cycle_through_withheld_actions", SMALL, wn(Profile::Cycle), 300, 9000, 600, mk),
         ],
         "C11" => vec![
             leg!("games_normal", MIX, w(Profile::Normal, None), 1800, 54000, 800, mk),
@@ -168,6 +176,7 @@ fn legs_base(id: &str) -> Vec<Leg> {
             leg!("rebuilt_states_games", MIX, wr(Profile::Fight, None), 300, 2400, 400, mk),
             leg!("interference_probe_fight", MIX, wx(Profile::Fight), 400, 3200, 300, mk),
             leg!("interference_probe_motif", MOTIF, wx(Profile::Fight), 300, 2400, 60, mk),
+            leg!("small_cycle_through_withheld_actions", SMALL, wn(Profile::Cycle), 300, 9000, 600, mk),
         ],
         "C13" => vec![
             leg!("games_fight", MIX, w(Profile::Fight, Some(TREE_LIGHT)), 120, 3600, 500, mk),
@@ -175,6 +184,7 @@ fn legs_base(id: &str) -> Vec<Leg> {
             leg!("false_protection_motif_tree", MOTIF, w(Profile::Fight, Some(TREE)), 200, 1600, 60, mk),
             leg!("interference_probe_fight", MIX, wx(Profile::Fight), 400, 3200, 300, mk),
             leg!("interference_probe_motif", MOTIF, wx(Profile::Fight), 300, 2400, 60, mk),
+            leg!("open_positions_many_actions", OPEN, w(Profile::Normal, None), 400, 3200, 12, mk),
         ],
         "C14" => vec![
             leg!("tree_from_positions", POS_ONLY, w(Profile::Fight, Some(TREE)), 75, 2250, 60, mk),
@@ -182,10 +192,15 @@ fn legs_base(id: &str) -> Vec<Leg> {
             leg!("false_protection_motif_tree", MOTIF, w(Profile::Fight, Some(TREE)), 200, 1600, 60, mk),
             leg!("games_played_on_after_the_result", SMALL, wp(Profile::Normal), 600, 4800, 200, mk),
             leg!("interference_probe_fight", MIX, wx(Profile::Fight), 200, 1600, 300, mk),
+            leg!("small_cycle_through_withheld_actions", SMALL, wn(Profile::Cycle), 300, 9000, 600, mk),
         ],
         "C15" => vec![
             leg!("games_normal", MIX_LONGSETUP, w(Profile::Normal, None), 360, 10800, 800, mk),
             leg!("games_fight", MIX, w(Profile::Fight, None), 240, 7200, 600, mk),
+        ],
+        "C17" => vec![
+            leg!("neighbours_of_reached_states_fight", MIX, w(Profile::Fight, None), 300, 9000, 400, mk),
+            leg!("neighbours_of_reached_states_motif_tree", MOTIF, w(Profile::Fight, Some(TREE_LIGHT)), 100, 800, 60, mk),
         ],
         "C19" => vec![
             leg!("games_normal", MIX_LONGSETUP, w(Profile::Normal, None), 400, 12000, 1500, mk),
@@ -197,6 +212,7 @@ fn legs_base(id: &str) -> Vec<Leg> {
             leg!("injected_history_fight", MIX, wi(Profile::Fight, None), 300, 2400, 600, mk),
             leg!("games_played_on_after_the_result", SMALL, wp(Profile::Normal), 600, 4800, 200, mk),
             leg!("interference_probe_fight", MIX, wx(Profile::Fight), 200, 1600, 300, mk),
+            leg!("open_positions_many_actions", OPEN, w(Profile::Normal, None), 400, 3200, 12, mk),
         ],
         _ => vec![],
     }
